@@ -57,6 +57,7 @@ type c09Cfg struct {
 	Redis      bool `json:"redis"`
 	IdPRefresh bool `json:"idp_refresh_tokens"`
 	TokTTL     int  `json:"access_token_ttl_s"`
+	Big        bool `json:"session_split_over_several_cookies,omitempty"`
 }
 
 func (g c09Cfg) store() string {
@@ -67,7 +68,11 @@ func (g c09Cfg) store() string {
 }
 
 func (g c09Cfg) String() string {
-	return fmt.Sprintf("expire=%ds refresh=%ds %s idp-refresh=%v token-ttl=%ds", g.Expire, g.Refresh, g.store(), g.IdPRefresh, g.TokTTL)
+	big := ""
+	if g.Big {
+		big = " split-session"
+	}
+	return fmt.Sprintf("expire=%ds refresh=%ds %s idp-refresh=%v token-ttl=%ds%s", g.Expire, g.Refresh, g.store(), g.IdPRefresh, g.TokTTL, big)
 }
 
 type c09Op struct {
@@ -107,6 +112,8 @@ func c09Configs(quick bool) []c09Cfg {
 			out = append(out, c09Cfg{Expire: 600, Refresh: 120, Redis: redis, IdPRefresh: ir, TokTTL: c09ShortTTL})
 		}
 	}
+	// a session that needs several cookies: every part is a session cookie with its own Max-Age
+	out = append(out, c09Cfg{Expire: 600, Refresh: 120, IdPRefresh: true, TokTTL: c09LongTTL, Big: true})
 	return out
 }
 
@@ -307,6 +314,9 @@ func c09NewWorld(g c09Cfg, e *c09Env) *c09World {
 	idp := world.NewIdP()
 	idp.NoRefreshToken = !g.IdPRefresh
 	idp.AccessTTL = time.Duration(g.TokTTL) * time.Second
+	if g.Big {
+		idp.Users["alice"].Groups = c18BigGroups()
+	}
 	cfg := &ProxyCfg{Flags: append(baseFlags("static://200"), "--email-domain=*", "--cookie-secure=false",
 		fmt.Sprintf("--cookie-expire=%ds", g.Expire), fmt.Sprintf("--cookie-refresh=%ds", g.Refresh))}
 	if g.Redis {
